@@ -80,3 +80,18 @@ CLAIMED["C11"] = dict(
     text="Decides per path: hits return the cached value and never load inline; reload only on the not-fresh edge and only inside the cache's executor closure; Reload receives the old value, Load is used for absent keys; no channel / nothing scheduled without refresh, capacity-1 channel with exactly one result per manual (bulk) refresh on every non-panicking path, nothing sent for automatic refreshes; failed reload keeps entry and expiry, own not-found reload removes, own successful reload installs. Does not decide timing around the deadline or asynchronous executors.",
     note=TB + "Known finding: bulk refresh after a re-raised loader panic (shared with C08).",
     ref="DESIGN.md §4 C11")
+CLAIMED["C04"] = dict(
+    technique="static analysis: " + PS + " over the policy handlers (eviction loops with callback havoc, add/update/makeDead accounting), writer census, lock-section order rule",
+    text="Decides per path: eviction loops never hand a zero-weight entry to the callback and only evict in iterations guarded by weightedSize > maximum (re-read after each callback); oversized entries are evicted by add/update; add/update count a weight exactly once on every path (dead nodes included), makeDead releases exactly once under the not-dead guard, totals and the maximum are written only by their handlers, nodes die only through makeDead; SetMaximum stores and enforces under one lock section and maintenance replays writes first; every table change yields its replay task and the update handler keeps the new node reachable. Does not decide the numeric bound over histories/schedules or absence of uint64 underflow.",
+    note=TB + "The eviction callback's effect on the policy is modelled as havoc of the policy's fields.",
+    ref="DESIGN.md §4 C04")
+CLAIMED["C05"] = dict(
+    technique="static analysis: " + PS + " (task per table change, handler tables, transplant, deque link hygiene), eviction-lock context analysis with call-site/parameter correlation, writer census",
+    text="Decides per path: exactly one matching add/update/delete task per table change (none when unchanged), retire once; runTask applies each kind completely to both policies; add links only alive nodes; update transplants only from a contained predecessor, else window entry; the eviction callback unlinks, unschedules and kills on all paths and reports iff it removed; the deque clears links of removed/replaced nodes and keeps len in step; all policy/deque/wheel/sketch/node-link writes and both buffer consumers run with the eviction lock held (token hand-off and constructor exemptions named); no task dropped on enqueue. Does not decide counter = sum(weights) or set(Coldest) = set(All) as run-time facts.",
+    note=TB + "Assumes tasks are replayed exactly once in producer order (C16).",
+    ref="DESIGN.md §4 C05")
+CLAIMED["C07"] = dict(
+    technique="static analysis: " + PS + " over eviction loops and the eviction callback, who-may-call census of the callback and the Overflow constant, guarded sweep predicate",
+    text="Decides per path: size evictions only in iterations guarded by weightedSize > maximum and never of zero-weight entries; window transfers only above the window maximum; the eviction callback reports Expiration exactly when the victim is expired at its time, Overflow otherwise; the callback is handed only to the eviction policy (under withEviction) and the timer wheel (under withExpiration) and CauseOverflow originates only there; the wheel expires only on deadline < wheel time. Does not decide 'total weight exceeded the maximum at that moment' numerically.",
+    note=TB,
+    ref="DESIGN.md §4 C07")
